@@ -98,13 +98,15 @@ def r07_2(ctx):
     ctx.check("_reg production", shapes == sorted(f"REG_TYPE {a}" for a in ACCESS), "REG_TYPE <access terminal>", str(shapes), gm.where("_reg"))
     # hex_reg: name = joined tokens, access from the token type, is_new as passed
     fi = idx.func(f"{EXT}.hex_reg")
-    for acc in ACCESS:
+    for acc, letter in [(a_, l_) for a_ in ACCESS for l_ in sorted(O.ACCESS_LETTERS[a_])]:
         for is_new in (True, False):
+            SAMPLE_LETTER = {acc: letter}
+
             def hook(interp, callee, args, kwargs, text):
                 if isinstance(callee, ClassRef) and callee.name == "Register":
                     return AObj("Register", {"args": args, "kwargs": kwargs}, label="Register(...)", opaque=True)
                 return NotImplemented
-            def once(i, acc=acc, is_new=is_new):
+            def once(i, acc=acc, is_new=is_new, SAMPLE_LETTER=SAMPLE_LETTER):
                 e = AObj(EXT, {"transformer": AObj("RZILTransformer", {"il_ops_holder": AObj("ILOpsHolder", {}, label="holder", opaque=True)}, label="tr")}, label="ext")
                 return i.call_function(fi, [[Tok("REG_TYPE", "R"), Tok(acc, SAMPLE_LETTER[acc])], is_new], self_obj=e)
             outs = Interp(idx, call_hook=hook).explore(once)
@@ -216,6 +218,20 @@ def reg_obj(name, access, idx, is_new=False, is_explicit=False, is_alias=False, 
 
 @rule("R07.4", "C07", "operand-slot and access templates: ISA2REG / EXPLICIT2OP / ALIAS2OP / NREG2OP / READ_REG / WRITE_REG with the .new hole from is_new", min_instances=12)
 def r07_4(ctx):
+    # resource lint: macros that take plugin objects (packet, operand slot ...) announce them as such - the modifier register of circular
+    # addressing reaches HEX_GET_CORRESPONDING_CS as its operand slot, not as its value
+    import json
+
+    mp = ctx.env.repo / "Resources" / "Hexagon" / "qemu_rzil_macros.json"
+    ctx.need(mp.is_file(), "anchor missing: Resources/Hexagon/qemu_rzil_macros.json")
+    macros = json.loads(mp.read_text()).get("macros", {})
+    for name, kinds in sorted(O.PLUGIN_OBJECT_PARAMS.items()):
+        m = macros.get(name)
+        if m is None:
+            continue
+        got = [str(p_).replace("const ", "").strip() for p_ in m.get("params", [])]
+        ok = len(got) == len(kinds) and all(g.startswith(k) for g, k in zip(got, kinds))
+        ctx.check(f"macro table entry {name}: plugin-object parameters", ok, str(kinds), str(got), "Resources/Hexagon/qemu_rzil_macros.json")
     idx = get_index(ctx.env)
     fa = idx.func("Register.il_isa_to_assoc_name")
     for is_new in (True, False):
@@ -258,8 +274,29 @@ def r07_4(ctx):
     ctx.check("plugin macro names", consts == exp, str(exp), str(consts), "rzilcompiler/Transformer/PluginInfo.py")
 
 
+def immediate_lookup_by_exact_letter(ctx):
+    """`siV` and `SiV` are two immediates: a mention is bound to the operand registered under exactly its letter (case preserved) - a
+    registered lower-case immediate is not handed out for the upper-case letter, and the other way round"""
+    idx = get_index(ctx.env)
+    for have, ask in (("s", "S"), ("S", "s"), ("u", "U"), ("r", "R"), ("s", "s"), ("U", "U")):
+        r = Runner(idx)
+        box = {}
+
+        def over(have=have):
+            old = AObj("Immediate", {"name": have, "isa_name": have}, label=f"registered #{have}", opaque=True)
+            box["old"] = old
+            h = AObj("ILOpsHolder", {"read_ops": {have: old}, "exec_ops": {}, "write_ops": {}, "let_ops": {}, "hybrid_effect_dict": {}}, label="holder", opaque=True)
+            r.stubs[("ext", "imm")] = lambda a: r.pure("fresh immediate", vt=mk_vt("ti", True, 32), cls="Immediate")
+            return {"il_ops_holder": h, "imm_set_effect_list": []}
+        fi, outs = r.run("imm", lambda ask=ask: [Tok("IMMEDIATE", ask)], self_over=over)
+        got = sorted({"RAISE" if o.kind == "raise" else ("the registered one" if o.value is box["old"] else "a fresh one") for o in outs})
+        exp = ["the registered one"] if have == ask else ["a fresh one"]
+        ctx.check(f"mention of #{ask} while #{have} is registered", got == exp, exp[0], str(got), fn_where(idx, fi), nontrivial=(have != ask))
+
+
 @rule("R07.5", "C07", "immediates: letter -> signedness; fetched by ISA2IMM(hi, '<letter>') with the matching SN/UN and C cast", min_instances=10)
 def r07_5(ctx):
+    immediate_lookup_by_exact_letter(ctx)
     idx = get_index(ctx.env)
     gm = get_grammar(ctx.env)
     from .c17 import char_class
